@@ -1,6 +1,6 @@
 (** C08 trace monitor: lifecycle — reported lost at most once and never after a local close,
     drained exactly once, silent afterwards, close timer within 3 PTO, a local close announced
-    by the very next poll, TimedOut not before the idle timeout after the last packet.
+    by the very next poll, TimedOut not before the connection's own Idle deadline.
     Projection expected: tags 1,2,3,4,5,6,8,10,12,13,15 in trace order. *)
 From Coq Require Import ZArith List Bool.
 From QV Require Import Lib.Corr Sys.Trace.
@@ -35,6 +35,8 @@ Definition step (s : st) (r : list Z) : option st :=
   let k := rkey r in
   let c := getc s k in
   let t := rtime r in
+  (* [-999] panic, [-998] the harness had to kill a run that did not terminate, [-997] crash *)
+  if tag r <? 0 then None else
   if tag r =? 8 then
     (* probe: entering Closed/Draining arms the close timer within 3 PTO *)
     let stt := pf r 0 in
@@ -105,10 +107,16 @@ Definition step (s : st) (r : list Z) : option st :=
       else
       if lost c || closed_local c then None
       else
+        (* TimedOut only when the connection's own Idle deadline (last probe, p19) has passed.
+           (The former rule "last routed datagram + idle <= t" was unsound: a routed datagram
+           that is a duplicate or cannot be decrypted does not restart the timer. That the
+           deadline itself lies >= idle after every ACCEPTED packet is Props/C08.v
+           C08_idle_window_lower, checked on the traces by Sys/MonLifecycle.v.) *)
         let timed_ok :=
           negb (fld r 5 =? 6) ||
-          (let idle := pf (lastp c) 13 in
-           (idle <? 0) || (last_rx c + idle <=? t)) in
+          ((0 <=? pf (lastp c) 19) && (pf (lastp c) 19 <=? t)
+           (* and an idle timeout is negotiated at all (p13 = -1: none) *)
+           && (0 <=? pf (lastp c) 13)) in
         if timed_ok then
           Some (setc s k {| lost := true; drained := drained c; closed_local := closed_local c;
                             entry := entry c; expect_tx := expect_tx c;
@@ -136,9 +144,15 @@ Definition step (s : st) (r : list Z) : option st :=
     if expect_tx c then None else Some s
   else if tag r =? 12 then
     if (fld r 4 =? 0) && (fld r 5 =? 0) && (fld r 7 =? 0) then Some s else None
+  else if (tag r =? 13) && (fld r 2 =? 11) then
+    (* the process behind endpoint [fld r 3] restarted: its connections are gone without a trace *)
+    Some {| cs := cs s; created := cnt_add (created s) (fld r 3) (- cnt_get (created s) (fld r 3));
+            late := late s; known_ok := known_ok s |}
   else if tag r =? 15 then
     if fld r 3 =? cnt_get (created s) (rep r) then Some s else None
   else Some s.
 
 Definition monitor (i : ops) (o : outs) : option Z :=
-  snd (run_from step 0 {| cs := []; created := []; late := param i 41 0; known_ok := param i 902 0 =? 1 |} o).
+  match o with [] => Some 0 | _ => (* an empty trace is not a run *)
+  snd (run_from step 0 {| cs := []; created := []; late := param i 41 0; known_ok := param i 902 0 =? 1 |} o)
+  end.
